@@ -1024,7 +1024,7 @@ def checks(h):
             continue
         for incl in (False, True):
             run_pass(h, {"pass": n, "opts": {}, "incl_default": incl}, "pass_no_options")
-    n_pass = h.scale(300, 3000)
+    n_pass = h.scale(150, 3000)
     for i, n in enumerate(with_opts):
         if i % h.nshards != h.shard:
             continue
@@ -1032,17 +1032,17 @@ def checks(h):
 
     # (b) synthetic classes ----------------------------------------------------------------------
     syn = st.sampled_from([c.name for c in SYN_ALL]).flatmap(lambda n: strategies[n])
-    h.hyp("synthetic", syn, lambda r: run_pass(h, r, "synthetic"), h.scale(1200, 12000), 1)
+    h.hyp("synthetic", syn, lambda r: run_pass(h, r, "synthetic"), h.scale(600, 12000), 1)
 
     # (c) pipelines ------------------------------------------------------------------------------
     pool = with_opts * 3 + [c.name for c in SYN_PASSES] * 3 + without[h.shard::h.nshards]
     one = st.sampled_from(pool).flatmap(lambda n: strategies[n]).map(
         lambda r: {"pass": r["pass"], "opts": r["opts"]})
     pipes = st.lists(one, max_size=5).map(lambda l: {"passes": l})
-    h.hyp("pipeline", pipes, lambda r: run_pipeline(h, r, "pipeline"), h.scale(800, 8000), 2)
+    h.hyp("pipeline", pipes, lambda r: run_pipeline(h, r, "pipeline"), h.scale(400, 8000), 2)
 
     # (d) ArgSpec level --------------------------------------------------------------------------
-    h.hyp("argspec", argspec_strategy(), lambda r: run_argspec(h, r, "argspec"), h.scale(1200, 12000), 3)
+    h.hyp("argspec", argspec_strategy(), lambda r: run_argspec(h, r, "argspec"), h.scale(600, 12000), 3)
 
     # (e) arbitrary strings ----------------------------------------------------------------------
     keys = sorted({f for n in with_opts for f, _, _ in option_fields(reg[n]())}
@@ -1052,4 +1052,4 @@ def checks(h):
     pass_fields = {n: [(f, t) for f, t, _ in option_fields(reg[n]())] for n in with_opts + without[:6]}
     pass_fields.update({c.name: [(f, t) for f, t, _ in option_fields(c)] for c in SYN_PASSES})
     h.hyp("text", text_strategy(names, keys, pass_fields, strategies).map(lambda s: {"s": s}),
-          lambda r: run_text(h, r, "text"), h.scale(2200, 22000), 4)
+          lambda r: run_text(h, r, "text"), h.scale(1100, 22000), 4)
